@@ -12,6 +12,7 @@ mod w2t;
 mod w3;
 mod w4;
 mod w5;
+mod w6;
 mod w7;
 
 use crate::core::*;
@@ -34,6 +35,7 @@ macro_rules! with_world {
             "W4" => $func::<w4::W4>($($arg),*),
             "W1A" => $func::<w1a::W1A>($($arg),*),
             "W7" => $func::<w7::W7>($($arg),*),
+            "W6" => $func::<w6::W6>($($arg),*),
             other => {
                 eprintln!("unknown world {other}");
                 std::process::exit(2);
@@ -120,7 +122,7 @@ fn plan(prop: &str, tier: Tier) -> Option<Plan> {
         },
         "C02" => Plan {
             level: "exploration",
-            batches: vec![b("W1", "hist", 3000, 60000)],
+            batches: vec![b("W1", "hist", 3000, 60000), b("W6", "shared-routes", 2000, 100000)],
             assumptions: vec![
                 "oracle named by the statement: a router rebuilt from scratch from the live rules, in a seeded insertion order",
                 "snapshot isolation is checked against the answers (ids and captures) recorded when the router was frozen",
@@ -134,11 +136,11 @@ fn plan(prop: &str, tier: Tier) -> Option<Plan> {
         },
         "C12" => Plan {
             level: "exploration",
-            batches: vec![b("W1", "cache", 2500, 50000), b("W3", "cache", 12000, 240000)],
+            batches: vec![b("W1", "cache", 2500, 50000), b("W3", "cache", 12000, 240000), b("W6", "shared-routes", 4000, 200000)],
             assumptions: vec![
                 "router level: every observation (match ids, Route::capture maps, canonicalised trace) is compared with a twin router that went through the same history from rule values, never cached and sharing no route with the cached one",
                 "tree level: find() compared with an uncached twin tree after every operation; (limit, level) pairs are sampled from {0,1,2,3,5,1000} x {None,0,1,2,3,7}",
-                "the concurrent form (cache on a derived router while readers use the published one) is decided by the shuttle world when built",
+                "concurrent form: W6 runs readers on the published router while an updater derives a router and warms its cache (which write-locks capture regexes of shared routes), under seeded shuttle schedules (random and PCT); std locks are swapped for shuttle's by hook H6",
             ],
         },
         "C11" => Plan {
